@@ -455,6 +455,8 @@ def obs_run(task):
         return None
     variant = "f32" if lattice else rng.choice(["f32", "f32", "f64", "4d"])
     fmt = rng.choice([".fits", ".csv", ".vot"])
+    if os.environ.get("C14_FMT"):
+        fmt = rng.choice(os.environ["C14_FMT"].split(","))
     pk = max(abs(s["peak"]) for s in srcs)
     nrng = np.random.default_rng(seed)
     yy, xx = np.mgrid[0:H, 0:W]
